@@ -77,7 +77,7 @@ func (h *HyperLogLog32) Union(a, b *HyperLogLog32) error {
 	if a.p != b.p {
 		return errors.New("card: mismatched precision")
 	}
-	ta := reflect.TypeOf(b.hash)
+	ta := reflect.TypeOf(a.hash)
 	if reflect.TypeOf(b.hash) != ta {
 		return errors.New("card: mismatched hash function")
 	}
@@ -98,7 +98,7 @@ func (h *HyperLogLog32) Union(a, b *HyperLogLog32) error {
 // will return an error if it is called on a receiver with a non-nil
 // hash function.
 func (h *HyperLogLog32) SetHash(fn hash.Hash32) error {
-	if h.hash == nil {
+	if h.hash != nil {
 		return errors.New("card: hash function already set")
 	}
 	h.hash = fn
@@ -204,16 +204,25 @@ func (h *HyperLogLog32) UnmarshalBinary(b []byte) error {
 			return fmt.Errorf("card: mismatched hash function: dst=%s src=%s", dstHash, srcHash)
 		}
 	}
-	err = dec.Decode(&h.p)
+	var p uint8
+	err = dec.Decode(&p)
 	if err != nil {
 		return err
 	}
-	h.m = uint32(1) << h.p
-	h.register = h.register[:0]
-	err = dec.Decode(&h.register)
+	if p < 4 || w32 < p {
+		return errors.New("card: precision out of range")
+	}
+	var register []byte
+	err = dec.Decode(&register)
 	if err != nil {
 		return err
 	}
+	if uint32(len(register)) != uint32(1)<<p {
+		return errors.New("card: mismatched register length")
+	}
+	h.p = p
+	h.m = uint32(1) << p
+	h.register = register
 	return nil
 }
 
